@@ -155,7 +155,7 @@ func numClass(f float64) string {
 // ---------------------------------------------------------------- part 1: hooks on strings
 
 func implPF(s string) string {
-	f, k := interp.VerifParseFloat(s)
+	f, k := interp.VerifC05ParseFloat(s)
 	switch k {
 	case "ok":
 		return "ok " + hx.FCanon(f)
@@ -171,7 +171,7 @@ func implPFP(s string) (out string) {
 			out = "panic"
 		}
 	}()
-	return "ok " + hx.FCanon(interp.VerifParseFloatPrefix(s))
+	return "ok " + hx.FCanon(interp.VerifC05ParseFloatPrefix(s))
 }
 
 func enumerate(maxLen int, f func(string)) {
@@ -295,6 +295,7 @@ function probe(id, l, r,    o, k) {
   if (l > r) o = o "1"; else o = o "0"
   if (l <= r) o = o "1"; else o = o "0"
   if (l >= r) o = o "1"; else o = o "0"
+  o = o " " ((l == r) ? 1 : 0) ((l != r) ? 1 : 0) ((l < r) ? 1 : 0) ((l > r) ? 1 : 0) ((l <= r) ? 1 : 0) ((l >= r) ? 1 : 0)
   o = o " "
   k = 0; do { k++; if (k > 1) break } while (l == r); o = o (k - 1)
   k = 0; do { k++; if (k > 1) break } while (l != r); o = o (k - 1)
@@ -302,6 +303,20 @@ function probe(id, l, r,    o, k) {
   k = 0; do { k++; if (k > 1) break } while (l > r); o = o (k - 1)
   k = 0; do { k++; if (k > 1) break } while (l <= r); o = o (k - 1)
   k = 0; do { k++; if (k > 1) break } while (l >= r); o = o (k - 1)
+  o = o " "
+  k = 0; while (l == r) { k++; if (k > 1) break }; o = o k
+  k = 0; while (l != r) { k++; if (k > 1) break }; o = o k
+  k = 0; while (l < r) { k++; if (k > 1) break }; o = o k
+  k = 0; while (l > r) { k++; if (k > 1) break }; o = o k
+  k = 0; while (l <= r) { k++; if (k > 1) break }; o = o k
+  k = 0; while (l >= r) { k++; if (k > 1) break }; o = o k
+  o = o " "
+  for (k = 0; l == r; ) { k++; if (k > 1) break }; o = o k
+  for (k = 0; l != r; ) { k++; if (k > 1) break }; o = o k
+  for (k = 0; l < r; ) { k++; if (k > 1) break }; o = o k
+  for (k = 0; l > r; ) { k++; if (k > 1) break }; o = o k
+  for (k = 0; l <= r; ) { k++; if (k > 1) break }; o = o k
+  for (k = 0; l >= r; ) { k++; if (k > 1) break }; o = o k
   o = o " " (!l) (l ? 1 : 0) (l == l + 0)
   printf "%s", "@" id " " o " " F(l + 0) " " H(l "") " " H(r "") " "
   if (LK(id) == 1) print l; else print "-"
@@ -464,11 +479,11 @@ func runProbes(ps []probe) ([]string, error) {
 			return nil, fmt.Errorf("line %d: unexpected %q", i, ln)
 		}
 		f := strings.Fields(ln[len(pre):])
-		if len(f) != 8 {
+		if len(f) != 11 {
 			return nil, fmt.Errorf("line %d: %d fields: %q", i, len(f), ln)
 		}
-		if f[7] != "-" {
-			f[7] = hx.HexS(f[7])
+		if f[10] != "-" {
+			f[10] = hx.HexS(f[10])
 		}
 		res[i] = "ok " + strings.Join(f, " ")
 	}
@@ -489,7 +504,7 @@ func runProbe1(p probe) string {
 // ---------------------------------------------------------------- search oracle (implementation only)
 
 type probeOut struct {
-	e, i, d, t       string
+	e, i, q, d, w, fo, t string
 	num              float64
 	numS, ls, rs, pr string
 }
@@ -520,14 +535,19 @@ func parseFCanon(s string) (float64, bool) {
 
 func parseOut(s string) (probeOut, bool) {
 	f := strings.Fields(s)
-	if len(f) != 9 || f[0] != "ok" || len(f[1]) != 8 || len(f[2]) != 6 || len(f[3]) != 6 || len(f[4]) != 3 {
+	if len(f) != 12 || f[0] != "ok" || len(f[1]) != 8 || len(f[7]) != 3 {
 		return probeOut{}, false
 	}
-	v, ok := parseFCanon(f[5])
+	for k := 2; k <= 6; k++ {
+		if len(f[k]) != 6 {
+			return probeOut{}, false
+		}
+	}
+	v, ok := parseFCanon(f[8])
 	if !ok {
 		return probeOut{}, false
 	}
-	return probeOut{e: f[1], i: f[2], d: f[3], t: f[4], num: v, numS: f[5], ls: string(hx.UnHex(f[6])), rs: string(hx.UnHex(f[7])), pr: f[8]}, true
+	return probeOut{e: f[1], i: f[2], q: f[3], d: f[4], w: f[5], fo: f[6], t: f[7], num: v, numS: f[8], ls: string(hx.UnHex(f[9])), rs: string(hx.UnHex(f[10])), pr: f[11]}, true
 }
 
 func isNumStrProv(prov string) bool { return prov != "const" && prov != "computed" }
@@ -550,7 +570,7 @@ func checkProbe(p probe, impl string) (class, oracle, want string, failed bool) 
 	}
 	o, ok := parseOut(impl)
 	if !ok {
-		return class, "probe output is well formed", "10 fields", true
+		return class, "probe output is well formed", "12 fields", true
 	}
 	b := func(s string, k int) bool { return s[k] == '1' }
 	eq, ne, lt, gt, le, ge := b(o.e, 0), b(o.e, 1), b(o.e, 2), b(o.e, 3), b(o.e, 4), b(o.e, 5)
@@ -628,12 +648,23 @@ func checkProbe(p probe, impl string) (class, oracle, want string, failed bool) 
 		if ge == lt {
 			return class, "a >= b iff !(a < b) (non-NaN)", "", true
 		}
-		if o.i != o.e[:6] {
-			return class, "a comparison used as an if condition equals its value as an expression (non-NaN)", o.e[:6], true
-		}
+	}
+	// a comparison in condition position = its value as an expression, NaN operands included
+	if o.i != o.e[:6] {
+		return class, "a comparison used as an if condition equals its value as an expression", o.e[:6], true
+	}
+	if o.q != o.e[:6] {
+		return class, "a comparison used as a ?: condition equals its value as an expression", o.e[:6], true
 	}
 	if o.d != o.e[:6] {
-		return class, "a comparison used as a loop condition equals its value as an expression", o.e[:6], true
+		return class, "a comparison used as a do-while condition equals its value as an expression", o.e[:6], true
+	}
+	twice := strings.ReplaceAll(o.e[:6], "1", "2") // top test and bottom test both as the expression
+	if o.w != twice {
+		return class, "a comparison used as a while condition (top and bottom test) equals its value as an expression", twice, true
+	}
+	if o.fo != twice {
+		return class, "a comparison used as a for condition (top and bottom test) equals its value as an expression", twice, true
 	}
 	if b(o.t, 0) == b(o.t, 1) {
 		return class, "!x is the negation of the truth of x", "", true
@@ -850,8 +881,8 @@ func failDetail(kind string, extra map[string]any) map[string]any {
 // oracle on the two hooks for one text (implementation only): coherence of parseFloat / parseFloatPrefix
 func checkHooks(s string) (class, oracle, want, got string, failed bool) {
 	class = textClass(s)
-	f, k := interp.VerifParseFloat(s)
-	g := interp.VerifParseFloatPrefix(s)
+	f, k := interp.VerifC05ParseFloat(s)
+	g := interp.VerifC05ParseFloatPrefix(s)
 	if k == "ok" && f == f {
 		if !(f == g) {
 			return class, "parseFloat(s) = x without error implies parseFloatPrefix(s) = x", hx.FCanon(f), hx.FCanon(g), true
@@ -903,7 +934,7 @@ func replay(o hx.Opts) {
 		u, _ := strconv.ParseUint(d["f_bits"].(string), 10, 64)
 		f := math.Float64frombits(u)
 		format := string(hx.UnHex(d["format_hex"].(string)))
-		got := interp.VerifNumToStr(f, format)
+		got := interp.VerifC05NumToStr(f, format)
 		want, _ := d["want"].(string)
 		fmt.Printf("number %v format %q: got %q want %q\n", f, format, got, want)
 		if oracle, w, failed := checkNumStr(f, format, got); failed {
@@ -916,7 +947,7 @@ func replay(o hx.Opts) {
 			L: operandFromDetail(d["l"].(map[string]any)), R: operandFromDetail(d["r"].(map[string]any))}
 		impl := runProbe1(p)
 		class, oracle, want, failed := checkProbe(p, impl)
-		fmt.Printf("probe provenance=%s l=%v r=%v CONVFMT=%q OFMT=%q class=%q\nimplementation: %s\n(fields: 8 expression results == != < > <= >= r<l r>l | 6 if-forms | 6 loop-forms | !l truth(l) l==l+0 | l+0 | l\"\" | r\"\" | print l)\n",
+		fmt.Printf("probe provenance=%s l=%v r=%v CONVFMT=%q OFMT=%q class=%q\nimplementation: %s\n(fields: 8 expression results == != < > <= >= r<l r>l | 6 if | 6 ?: | 6 do-while | 6 while (0/1/2) | 6 for (0/1/2) | !l truth(l) l==l+0 | l+0 | l\"\" | r\"\" | print l)\n",
 			p.Prov, p.L.detail(), p.R.detail(), p.CF, p.OF, class, impl)
 		if failed {
 			fmt.Printf("STILL FAILS oracle=%q want=%s\n", oracle, want)
@@ -1081,7 +1112,7 @@ func main() {
 	// ---- part 2: numbers through value.str
 	doNum := func(f float64, format string, shape string) {
 		rep.Count("number:" + shape + ":" + numClass(f))
-		got := interp.VerifNumToStr(f, format)
+		got := interp.VerifC05NumToStr(f, format)
 		add("str "+hx.FBits(f)+" "+hx.HexS(format), "ok "+hx.HexS(got), "value.str")
 		rep.SearchEvals++
 		if oracle, want, failed := checkNumStr(f, format, got); failed {
@@ -1146,11 +1177,11 @@ func main() {
 				tn = 0
 			}
 			rep.Count("value-method:" + tags[tag])
-			add("vbool "+w, "ok "+fmt.Sprint(b2i(interp.VerifBoolean(tag, ts, tn))), "value.boolean")
-			add("vnum "+w, "ok "+hx.FCanon(interp.VerifNum(tag, ts, tn)), "value.num")
-			x, isStr := interp.VerifIsTrueStr(tag, ts, tn)
+			add("vbool "+w, "ok "+fmt.Sprint(b2i(interp.VerifC05Boolean(tag, ts, tn))), "value.boolean")
+			add("vnum "+w, "ok "+hx.FCanon(interp.VerifC05Num(tag, ts, tn)), "value.num")
+			x, isStr := interp.VerifC05IsTrueStr(tag, ts, tn)
 			add("ists "+w, "ok "+hx.FCanon(x)+" "+fmt.Sprint(b2i(isStr)), "value.isTrueStr")
-			add("vstr "+hx.HexS("%.6g")+" "+w, "ok "+hx.HexS(interp.VerifStr(tag, ts, tn, "%.6g")), "value.str")
+			add("vstr "+hx.HexS("%.6g")+" "+w, "ok "+hx.HexS(interp.VerifC05Str(tag, ts, tn, "%.6g")), "value.str")
 		}
 	}
 
@@ -1217,7 +1248,7 @@ func main() {
 				rep.Fail(hx.Failure{Class: class, Oracle: oracle, Detail: failDetail("probe", map[string]any{
 					"provenance": p.Prov, "l": p.L.detail(), "r": p.R.detail(), "convfmt_hex": hx.HexS(p.CF), "ofmt_hex": hx.HexS(p.OF),
 					"want": want, "got": impl, "program": "harness/c05/main.go awkCommon + per-provenance driver; replay with -replay",
-					"fields": "8 expression results (== != < > <= >= r<l r>l) | 6 if-forms | 6 loop-forms | !l truth(l) l==l+0 | l+0 | hex(l \"\") | hex(r \"\") | hex(print l)"})})
+					"fields": "8 expression results (== != < > <= >= r<l r>l) | 6 if | 6 ?: | 6 do-while | 6 while (0/1/2) | 6 for (0/1/2) | !l truth(l) l==l+0 | l+0 | hex(l \"\") | hex(r \"\") | hex(print l)"})})
 			}
 		}
 	}
